@@ -289,9 +289,18 @@ func (g *declGen) positionals() ([]*ArgSpec, bool) {
 	return out, r.Chance(1, 4)
 }
 
-func (g *declGen) cmd(depth int) *CmdSpec {
+func (g *declGen) cmd(depth int, tagOK bool) *CmdSpec {
 	r, cfg := g.r, g.cfg
 	c := &CmdSpec{Name: g.takeCmd(), Exec: cfg.Exec && r.Chance(5, 6)}
+	if !cfg.Exec && r.Chance(1, 2) {
+		c.Exec = false
+	}
+	if !c.Exec && tagOK && r.Chance(1, 2) {
+		c.ViaTag = true // declared by a struct tag inside the parent's struct
+	}
+	if c.Exec && cfg.Descriptions && r.Chance(1, 5) {
+		c.Usage = "[" + c.Name + "-args...]"
+	}
 	if cfg.CapCmds && r.Chance(1, 5) {
 		c.Name = strings.ToUpper(c.Name[:1]) + c.Name[1:]
 	}
@@ -326,7 +335,7 @@ func (g *declGen) cmd(depth int) *CmdSpec {
 	if depth < cfg.MaxDepth && r.Chance(1, 3) {
 		n := r.Range(1, 2)
 		for i := 0; i < n; i++ {
-			c.Commands = append(c.Commands, g.cmd(depth+1))
+			c.Commands = append(c.Commands, g.cmd(depth+1, c.ViaTag))
 		}
 		c.SubOptional = r.Chance(1, 3)
 	}
@@ -360,7 +369,7 @@ func genDecl(r *Rng, cfg *DeclCfg) *DeclSpec {
 	}
 	nc := r.Range(0, cfg.MaxCmds)
 	for i := 0; i < nc; i++ {
-		d.Commands = append(d.Commands, g.cmd(1))
+		d.Commands = append(d.Commands, g.cmd(1, true))
 	}
 	if nc > 0 {
 		d.SubOptional = r.Chance(1, 3)
